@@ -636,6 +636,7 @@ func checkRelsSorted(p *Prog, r *Report, rels *ssa.Function) {
 			if !found {
 				r.ok("R8.concat-key", "Rels:comparator", p.pos(cmp.Pos()), "comparator does not compare concatenated keys")
 			}
+			checkComparatorTotal(p, r, cmp)
 		}
 	}
 
@@ -680,4 +681,140 @@ func checkRelsSorted(p *Prog, r *Report, rels *ssa.Function) {
 	}
 	r.floor("relationship-set keys", nSetKeys, 1)
 	_ = sort.Strings
+}
+
+// elemField: v reads field f of element <param> of the sorted slice
+// (rels[i].FromType): returns the index parameter and the field name.
+func elemField(v ssa.Value, cmp *ssa.Function) (int, string, bool) {
+	base, f, ok := fieldLoad(v)
+	if !ok {
+		return 0, "", false
+	}
+	ia, ok := base.(*ssa.IndexAddr)
+	if !ok {
+		return 0, "", false
+	}
+	for k, prm := range cmp.Params {
+		if ia.Index == ssa.Value(prm) {
+			return k, f, true
+		}
+	}
+	return 0, "", false
+}
+
+// checkComparatorTotal: the less function of Schema.Rels orders any two
+// relationships that differ in one of the four name fields (the set is keyed by
+// the whole relationship, so a comparator that ignores a field leaves ties
+// whose order follows map iteration). Decided by evaluating the comparator's
+// branches for every scenario "all name fields equal except F".
+func checkComparatorTotal(p *Prog, r *Report, cmp *ssa.Function) {
+	fields := []string{"FromType", "FromName", "ToType", "ToName"}
+	eval := func(diff string, sign int) (string, string) {
+		// sign: order of element i relative to element j on field diff
+		var oracle func(cond ssa.Value) int
+		cmpOf := func(v ssa.Value) int {
+			bo, ok := v.(*ssa.BinOp)
+			if !ok {
+				return -1
+			}
+			ki, fi, ok1 := elemField(bo.X, cmp)
+			kj, fj, ok2 := elemField(bo.Y, cmp)
+			if !ok1 || !ok2 || fi != fj || ki == kj {
+				return -1
+			}
+			c := 0
+			if fi == diff {
+				c = sign
+				if ki == 1 {
+					c = -sign
+				}
+			}
+			var res bool
+			switch bo.Op {
+			case token.LSS:
+				res = c < 0
+			case token.LEQ:
+				res = c <= 0
+			case token.GTR:
+				res = c > 0
+			case token.GEQ:
+				res = c >= 0
+			case token.EQL:
+				res = c == 0
+			case token.NEQ:
+				res = c != 0
+			default:
+				return -1
+			}
+			if res {
+				return 1
+			}
+			return 0
+		}
+		oracle = func(cond ssa.Value) int {
+			if u, ok := cond.(*ssa.UnOp); ok && u.Op == token.NOT {
+				switch oracle(u.X) {
+				case 1:
+					return 0
+				case 0:
+					return 1
+				}
+				return -1
+			}
+			return cmpOf(cond)
+		}
+		rets, note := walkToReturns(cmp, oracle)
+		set := map[string]bool{}
+		for _, rt := range rets {
+			if len(rt.Results) != 1 {
+				set["?"] = true
+				continue
+			}
+			if cb, ok := constBool(rt.Results[0]); ok {
+				set[fmt.Sprint(cb)] = true
+				continue
+			}
+			switch oracle(rt.Results[0]) {
+			case 1:
+				set["true"] = true
+			case 0:
+				set["false"] = true
+			default:
+				// a phi of comparison results: resolve each edge
+				if phi, ok := rt.Results[0].(*ssa.Phi); ok {
+					for _, e := range phi.Edges {
+						if cb, ok := constBool(e); ok {
+							set[fmt.Sprint(cb)] = true
+						} else {
+							switch oracle(e) {
+							case 1:
+								set["true"] = true
+							case 0:
+								set["false"] = true
+							default:
+								set["?"] = true
+							}
+						}
+					}
+				} else {
+					set["?"] = true
+				}
+			}
+		}
+		var ks []string
+		for k := range set {
+			ks = append(ks, k)
+		}
+		sort.Strings(ks)
+		return strings.Join(ks, "|"), note
+	}
+	for _, f := range fields {
+		lt, _ := eval(f, -1)
+		gt, _ := eval(f, 1)
+		r.decide(lt == "true" && gt == "false", "C16.total-order", "Rels:comparator:differ-in-"+f, p.pos(cmp.Pos()),
+			"less(i,j) is true and less(j,i) false when only "+f+" differs",
+			"two relationships that differ only in "+f+" are not ordered by the comparator (less(i,j)="+lt+", less(j,i)="+gt+"): their relative order in Schema.Rels follows map iteration order")
+	}
+	eq, _ := eval("", 0)
+	r.decide(eq == "false", "C16.total-order", "Rels:comparator:equal", p.pos(cmp.Pos()), "irreflexive on equal names", "the comparator is not irreflexive (less on equal elements = "+eq+")")
 }
